@@ -43,7 +43,36 @@ def body(data, hist):
     stop = False
     twins = 0
     while len(hist.steps) < n and not stop:
-        for step in draw_steps(data, hist, WEIGHTS, max_prs=3):
+        steps_ = draw_steps(data, hist, WEIGHTS, max_prs=3)
+        prs_ = sorted(hist.world.prs)
+        k_ = data.draw(st.integers(0, 11), label='c19macro') if prs_ else 9
+        if k_ == 0:
+            # an integration branch disappears while its PR is open
+            pr_ = prs_[data.draw(st.integers(0, len(prs_) - 1), label='dw')]
+            steps_ = [{'op': 'delete_w', 'pr': pr_,
+                       'w': data.draw(st.integers(0, 3), label='dwi')},
+                      {'op': 'pr_event', 'pr': pr_},
+                      {'op': 'pr_event', 'pr': pr_}]
+            hist.flags.add('c19_w_deleted_by_hand')
+        elif k_ == 1 and hist.world.mode != 'noqueue':
+            # partial merge: the source moves after the PR was queued
+            from vf.sim.world import PEER1, PEER2
+            pr_ = prs_[data.draw(st.integers(0, len(prs_) - 1), label='pm')]
+            au_ = hist.world.prs[pr_]['author']
+            steps_ = [{'op': 'approve', 'pr': pr_, 'user': u}
+                      for u in (PEER1, PEER2, au_)]
+            steps_ += [{'op': 'pr_event', 'pr': pr_},
+                       {'op': 'report_pr', 'pr': pr_, 'state': 'SUCCESSFUL'},
+                       {'op': 'pr_event', 'pr': pr_},
+                       {'op': 'push_src', 'pr': pr_, 'kind': 'add'},
+                       {'op': 'report_queue', 'states': ['SUCCESSFUL']},
+                       {'op': 'commit_event', 'sel': {
+                           'ref': 'q/' + hist.world.prs[pr_]['dst'].split(
+                               '/')[1]}},
+                       {'op': 'pr_event', 'pr': pr_},
+                       {'op': 'pr_event', 'pr': pr_}]
+            hist.flags.add('c19_partial_merge_macro')
+        for step in steps_:
             w = hist.world
             twin = None
             if step['op'] == 'pr_event' and step['pr'] not in w.prs:
